@@ -115,6 +115,19 @@ def callback_return_cases():
     return cases
 
 
+def loop_default_selector_cases():
+    """a `for` over a map without a selector visits the VALUES in ascending key order — whatever the number of loop variables"""
+    M2 = "<<<'k2' => [1, 2], 'k0' => [3, 4], 'k1' => [5, 6]>>>"
+    return [
+        (f"def r = []; for [a, b] in {M2} do append(r, [a, b]) end; r", ('same', f"def r = []; for [a, b] in values {M2} do append(r, [a, b]) end; r")),
+        (f"def r = []; for v in {M2} do append(r, v) end; r", ('same', f"def r = []; for v in values {M2} do append(r, v) end; r")),
+        (f"def r = []; for [a, b] in {M2} do append(r, a) end; r", ('text', "[3, 5, 1]")),
+        (f"def r = []; for [a, b, c] in {M2} do append(r, [a, b, c]) end; r", ('same', f"def r = []; for [a, b, c] in values {M2} do append(r, [a, b, c]) end; r")),
+        (f"def r = []; for [a] in {M2} do append(r, a) end; r", ('same', f"def r = []; for [a] in values {M2} do append(r, a) end; r")),
+        (f"def r = []; for [k, v] in entries {M2} do append(r, [k, v]) end; r", ('text', "[['k0', [3, 4]], ['k1', [5, 6]], ['k2', [1, 2]]]")),
+    ]
+
+
 def comprehension_scope_cases():
     """a comprehension's variable lives only in the comprehension: an enclosing loop variable, parameter or definition of the same name is what
     it was afterwards — also when the comprehension is left by an error that is caught nearby, for every comprehension shape"""
@@ -180,6 +193,7 @@ def run(ctx):
     progcheck.run_templates(ctx, effect_order_cases(), "comprehension-effect-order")
     progcheck.run_templates(ctx, callback_return_cases(), "return-in-callbacks")
     progcheck.run_templates(ctx, comprehension_scope_cases(), "comprehension-scope")
+    progcheck.run_templates(ctx, loop_default_selector_cases(), "loop-default-selector")
     progcheck.run_templates(ctx, exit_cases(), "exit-statements")
     common.replay_known(ctx)
 
